@@ -203,7 +203,7 @@ def run(ctx):
                     "table Gen/TargetWiring.v", "pkg/scan/verif_export*.go, command/verif_export_c01.go (build tag verif)"]
     ctx.assumptions += ["a MAC is known for every destination (gateway MAC given or VPN mode) - otherwise C13 applies",
                         "live mode off (repeated passes: C19)"]
-    gen_ok, model_ok, proof_ok = T.gen_and_prove(ctx, "Spec/C01.vo", "Properties/C01.v")
+    gen_ok, model_ok, proof_ok = T.gen_and_prove(ctx, "Spec/C01.vo", "Properties/C01.v", more=["Properties/C01Wire.v"])
     rows = []
     if ctx.harness_build("c01"):
         args = ["-out", "cases.jsonl", "-seed", ctx.seed]
@@ -282,7 +282,10 @@ MANIFEST = {
     "level_text": "Theorem C01_all_commands: for every command of the generated wiring table, every option setting, every valid "
                   "IPv4 specification (nets /0../32, any valid port ranges incl. >200, well-formed files from file or stdin, any "
                   "exclusion list) and all random draws, the probes of one pass are as a multiset exactly what the specification "
-                  "denotes; plus the same per chain shape, the chunking lemma and the stdin-replay invariant. The executable model "
+                  "denotes; plus the same per chain shape, the chunking lemma and the stdin-replay invariant. C01_on_the_wire / "
+                  "C01_scanned (Properties/C01Wire.v) compose this with the packet pipeline of C07 and the generic engine of C08: "
+                  "for every worker count and EVERY schedule of every engine run (one per chunk) the frames handed to the wire / "
+                  "the targets handed to Scan in complete uncancelled runs are as a multiset what the specification denotes. The executable model "
                   "is compared with the real port generator (exact), the real nested generator (exact) and the real chains of "
                   "tcp/udp/icmp/arp and of the application scans' GenericEngine (multisets).",
     "level_note": "Trusted: Coq kernel + VM, tools/gen transcription of the chain each command builds and of the chunk loop, "
